@@ -20,7 +20,7 @@ Your task: craft ONE realistic source change to the non-test source code under {
   (c) the breakage needs something specific to manifest (an unusual grammar or input, a particular multi-step sequence of operations, a particular interleaving / timing, a fault at a particular point, or two cooperating sites) - NOT something that ordinary use or the existing tests expose at once.
 Keep it small (at most ~30 changed lines), do not touch existing tests, do not add cfg flags / cargo features, and do not add comments that announce the bug. {extra}
 
-Also write a demonstration: a new test file (for example crates/<crate>/tests/seeded_demo.rs, or a #[cfg(test)] module in a NEW file, or a small example program/script driving the built binaries) that FAILS with your change and PASSES on the original code. Verify both directions yourself (e.g. `git stash` the source change but keep the demo, run it -> passes; `git stash pop`, run it -> fails).
+Also write a demonstration: a new test file (for example crates/<crate>/tests/seeded_demo.rs, or a #[cfg(test)] module in a NEW file, or a small example program/script driving the built binaries) that FAILS with your change and PASSES on the original code. Verify both directions yourself (save your change with `git diff > SEEDED/patch.diff`, then `git apply -R SEEDED/patch.diff`, run the demo -> passes; `git apply SEEDED/patch.diff`, run it -> fails. NEVER use `git stash`: the stash is shared with other worktrees of this repository and would mix up changes).
 
 Deliver in {wt}/SEEDED/ :
   - patch.diff : `git diff` of the source change only (not the demo files)
